@@ -29,7 +29,7 @@ Qed.
 
 Theorem possi_any_order_ws name q cl rel we rest' :
   name <> [] -> forallb namec name = true -> eqc (peek name) 36 = false ->
-  (match q with None => True | Some a => forallb mac (arch_string a) = true /\ parse_arch (arch_string a) = a end) ->
+  (match q with None => True | Some a => forallb mac (arch_string a) = true /\ parse_arch (arch_string a) = a /\ arch_ok (arch_string a) = true end) ->
   clauses_ok (base name q) cl -> all_ws we -> stop3 (peek rest') = true ->
   evOk (fun f => parse_possibility f rel (name ++ qual_text q ++ clauses_text cl ++ we ++ rest'))
        (rel ++ [result name q cl], rest').
@@ -68,11 +68,11 @@ Proof.
   change (c0 :: n0 ++ qual_text q ++ T) with ((c0 :: n0) ++ qual_text q ++ T).
   rewrite (possi_loop_name (c0 :: n0) g fresh rel _ Hc). cbn [p_name fresh app].
   destruct q as [a|].
-  - destruct Ha as [Hm Hrt]. destruct g as [|g]; [lia|]. cbn [qual_text app possi_loop peek].
+  - destruct Ha as (Hm&Hrt&Hok). destruct g as [|g]; [lia|]. cbn [qual_text app possi_loop peek].
     change (eqc (ch 58) 58) with true. cbv iota. unfold parse_multiarch. cbn [adv tl].
     assert (Hstop : multiarch_stop (peek T) = true).
     { apply stop_or_ws_multiarch. destruct HeadT as [(ET&_&_)|Hw]; [left; now rewrite ET|now right]. }
-    rewrite (multiarch_word (arch_string a) [] _ Hm Hstop). cbn [app]. rewrite Hrt.
+    rewrite (multiarch_word (arch_string a) [] _ Hm Hstop). cbn [app]. rewrite (arch_named_ok _ _ Hok), Hrt.
     replace (set_arch (with_name fresh (c0 :: n0)) a) with (base (c0 :: n0) (Some a)) by reflexivity.
     apply H2. lia.
   - cbn [qual_text app]. replace (with_name fresh (c0 :: n0)) with (base (c0 :: n0) None) by reflexivity.
